@@ -470,7 +470,7 @@ DoAddNode ==
 DoAddRel ==
     /\ ~Asked /\ Len(G.rels) < fc.maxr
     /\ \E s \in DOMAIN G.nodes, d \in DOMAIN G.nodes, t \in fc.types, p \in ValSet(fc.r) :
-          /\ Canon /\ G.rels # <<>> => LexLe(RelDesc(G.rels[Len(G.rels)]), RelDesc(RelRec(s, d, t, p)))
+          /\ Canon /\ G.rels # <<>> => LexLe(RelDesc(G.rels[Len(G.rels)]), RelDesc(RelRec(s, d, t, p, 0)))
           /\ G' = AddRel(G, s, d, t, p)
           /\ H([op |-> "CreateRel", s |-> s, d |-> d, t |-> t, p |-> p])
     /\ UNCHANGED <<q, fc>>
